@@ -172,6 +172,63 @@ def h_step(x, op, lazy=True, na=2):
         be.close()
 
 
+def h_peewee(x, op):
+    """auto-committing store: every completed operation is durable, no transaction is ever opened"""
+    A = ST.sym_rows(x, "a", 2)
+    B = ST.sym_rows(x, "b", 1)
+    ST.distinct(x, [r.id for r in A + B])
+    be = ST.backend("peewee")
+    ds = be.make(x, {"A": A, "B": B})
+    try:
+        b = ds["A"]
+        conn = ds.storage_strategy.db.connection()
+        mark = len(conn.log) if x.sym else 0
+        new = ST.sym_rows(x, "n", 2, ids=False)
+        if op == "insert_one":
+            b.insert(ST.event_of_row(x, new[0]))
+        elif op == "insert_many_new":
+            b.insert([ST.event_of_row(x, new[0]), ST.event_of_row(x, new[1])])
+        elif op == "insert_many_upsert":
+            b.insert([C.mk_event(x, new[0].start, new[0].dur, {"tag": x.wrap(new[0].tag)}, id=x.wrap(A[0].id), aligned=False), ST.event_of_row(x, new[1])])
+        elif op == "replace":
+            b.replace(x.wrap(A[0].id), ST.event_of_row(x, new[0]))
+        elif op == "replace_last":
+            b.replace_last(ST.event_of_row(x, new[0]))
+        elif op == "delete_live":
+            b.delete(x.wrap(A[0].id))
+        elif op == "create_bucket":
+            ds.create_bucket("C", "t", "c", "h", created=ST.T0)
+        elif op == "update_bucket":
+            ds.update_bucket("A", name="other")
+        elif op == "delete_bucket":
+            ds.delete_bucket("A")
+        if x.sym:
+            obl = [("every-completed-operation-durable", conn.uncommitted_writes == 0 and same_tables(conn.tables, conn.crash_image())),
+                   ("no-transaction-opened", all(kind not in ("begin", "rollback") for _, kind in conn.log[mark:]) and conn.isolation_level is None)]
+        else:
+            import sqlite3
+
+            c2 = sqlite3.connect(ds.storage_strategy.db.database)
+            same = all(list(conn.execute('SELECT * FROM "%s" ORDER BY 1' % t)) == list(c2.execute('SELECT * FROM "%s" ORDER BY 1' % t)) for t in ("eventmodel", "bucketmodel"))
+            c2.close()
+            obl = [("every-completed-operation-durable", same), ("no-transaction-opened", conn.isolation_level is None and not conn.in_transaction)]
+        return obl, [op]
+    finally:
+        be.close()
+
+
+def same_tables(a, b):
+    if set(a) != set(b):
+        return False
+    for k in a:
+        if len(a[k].rows) != len(b[k].rows):
+            return False
+        for r1, r2 in zip(a[k].rows, b[k].rows):
+            if set(r1) != set(r2) or any(r1[c] is not r2[c] and not (isinstance(r1[c], (int, str, float, type(None))) and r1[c] == r2[c]) for c in r1):
+                return False
+    return True
+
+
 def select(obl_filter):
     def h(x, **kw):
         obl, obs = h_step(x, **kw)
@@ -193,6 +250,9 @@ def harnesses(tier, prop=PROP, fn=None):
     for op in ops:
         hs.append((Harness(prop, "sqlite-lazy-%s" % op, fn, dict(op=op, lazy=True), "sqlite (lazy commit): %s from an arbitrary commit-machinery state (counter, buffered writes, age of last flush symbolic)" % op, split_depth=6), 1800))
     if prop == "C06":
+        ST.install_peewee()
+        for op in ["insert_one", "insert_many_new", "insert_many_upsert", "replace", "replace_last", "delete_live", "create_bucket", "update_bucket", "delete_bucket"]:
+            hs.append((Harness(prop, "peewee-%s" % op, h_peewee, dict(op=op), "peewee (auto-commit): %s — durable on return, no transaction opened" % op, split_depth=6), 900))
         for op in EVENT_WRITES:
             hs.append((Harness(prop, "sqlite-eager-%s" % op, fn, dict(op=op, lazy=False), "sqlite (enable_lazy_commit=False): %s" % op, split_depth=6), 1800))
     return hs
@@ -210,7 +270,7 @@ def meta(chk, tier):
     chk.assumptions = [
         "TRUSTED, not verified: SQLite rolls back exactly the statements since the last COMMIT when the process dies (atomic commit, WAL); the 'prefix in issue order' part of the property holds by this contract",
         "inductive invariant: buffered writes <= counter <= 50",
-        "peewee (autocommit) configuration not covered by this check yet",
+        "peewee: every statement commits (isolation_level=None); asserted per operation: nothing buffered, committed image equals the working tables, no BEGIN/ROLLBACK issued",
     ]
 
 
